@@ -132,7 +132,13 @@ def generate_from_rng(rng, repo_root, tier="thorough", opts=None):
 
 
 def scenario_for(k, batch_seed, tier, repo_root, opts=None):
-    return generate(seeds.rng_for(ID, batch_seed, k), repo_root, opts)
+    scn = generate(seeds.rng_for(ID, batch_seed, k), repo_root, opts)
+    if (opts or {}).get("canary"):
+        scn["canary"] = True
+    return scn
+
+
+CANARY = "in shift scenarios the 'shifted' grid additionally has its first increment stretched by 0.1 %: the pair must be reported as different"
 
 
 # =========================================================================== execute
@@ -233,7 +239,10 @@ def execute(ns, scn):
     if kind == "shift":
         c = float(scn["shift"])
         t2 = t + c
-        if not np.array_equal(np.diff(t2), np.diff(t)):
+        if scn.get("canary") and len(t2) > 1:
+            t2 = t2.copy()
+            t2[1:] += (t2[1] - t2[0]) * 1e-3      # sensitivity canary: not a pure shift any more
+        elif not np.array_equal(np.diff(t2), np.diff(t)):
             out.probe("shift_not_exact_skipped")
             out.log.append(("skip",))
             return out
